@@ -207,10 +207,12 @@ def pattern_shape() -> bool:
 PROLOGUES = ["", "a = 0\nprint(a)\n", "a = 0\n\n\nprint(a)\n"]
 FILLERS = ["k = 1\nprint(k)\n", "k = 1\nprint(k)\nk2 = k\nprint(k2)\n"]
 TARGETS = [("print(undefined_name)\n", "tifa"), ("zz = 1 / 0\n", "runtime"), ("print(undefined_name)\n", "runtime"),
-           ("v = (\n", "syntax"), ("  w = 1\n", "syntax")]
+           ("v = (\n", "syntax"), ("  w = 1\n", "syntax"),
+           ("def boom(n):\n    m = n\n    return m / 0\n", "call")]          # failure inside a student function reached by call()
 
 
-def tools_in_sections(p0: bool, p1: bool, f0: bool, t0: bool, t1: bool, t2: bool, second: bool, independent: bool) -> bool:
+def tools_in_sections(p0: bool, p1: bool, f0: bool, t0: bool, t1: bool, t2: bool, second: bool, independent: bool,
+                      crlf: bool) -> bool:
     """
     A file `prologue / ##### Part 1 / S1 / ##### Part 2 / S2` where the offending statement sits in section 1 or 2 (the
     other holds filler): the line reported by verify (syntax), tifa_analysis (initialization problem) and the sandbox
@@ -227,19 +229,24 @@ def tools_in_sections(p0: bool, p1: bool, f0: bool, t0: bool, t1: bool, t2: bool
         return True
     from crosshair.tracers import NoTracing
     with NoTracing():
-        return _tools_concrete(PROLOGUES[p], FILLERS[1 if f0 else 0], TARGETS[t], second, independent)
+        return _tools_concrete(PROLOGUES[p], FILLERS[1 if f0 else 0], TARGETS[t], second, independent, crlf)
 
 
-def _tools_concrete(prologue, filler, target, second, independent):
+def _tools_concrete(prologue, filler, target, second, independent, crlf=False):
     from pedal.tifa import tifa_analysis
-    from pedal.sandbox.commands import run
+    from pedal.sandbox.commands import run, call
     stmt, kind = target
     s1, s2 = (filler, stmt) if second else (stmt, filler)
     full = prologue + "##### Part 1\n" + s1 + "##### Part 2\n" + s2
-    want = full.split("\n").index(stmt.rstrip("\n")) + 1
+    first_line = stmt.split("\n")[0] if kind != "call" else "    return m / 0"
+    want = full.split("\n").index(first_line) + 1
+    if crlf:
+        full = full.replace("\n", "\r\n")         # Windows line endings: same lines, same numbers
     r = Report()
     contextualize_report(full, report=r)
     separate_into_sections(independent=independent, report=r)
+    if "".join(r["source"]["sections"]) != full:      # the split (real re.split here) loses nothing
+        return False
     next_section(report=r)
     if second:
         next_section(report=r)
@@ -252,6 +259,14 @@ def _tools_concrete(prologue, filler, target, second, independent):
     elif kind == "tifa":
         issues = tifa_analysis(report=r).issues.get("initialization_problem", [])
         res = [f.location.line for f in issues if f.fields.get("name") == "undefined_name"] == [want]
+    elif kind == "call":
+        run(report=r)
+        call("boom", 3, report=r)
+        fbs = [f for f in r.feedback if f.category in ("runtime", "specification") and f.label == "zero_division_error"]
+        res = (len(fbs) == 1 and fbs[0].location is not None and fbs[0].location.line == want
+               and ("Line %d of file" % want) in fbs[0].message)
+        stop_sections(report=r)
+        return res and r.submission.main_code == full
     else:
         run(report=r)
         fbs = [f for f in r.feedback if f.category == "runtime"]
